@@ -505,11 +505,23 @@ func VerifH_composite_key_components() {
 	// traditional public key: the one prescribed for any of the 11 rows
 	row2 := cmpTable[verifrt.Choice("clcombo", 11)]
 	clPub, _, _ := cmpClassicalKeys(row2)
+	// ... or, for Ed25519, the PRIVATE key with the same parameters offered as "public key"
+	// (what the public-key parser builds from a CompositeMlDsaPublicKey message whose
+	// classical_public_key field carries an Ed25519PrivateKey): must be refused - a composite
+	// public key holding private key material would pass the no-secrets APIs (C13).
+	clIsPrivate := false
+	if row2.kind == cmpEd && verifrt.Choice("clprivate", 2) == 1 {
+		edp, err := parametersForClassicalAlgorithm(Ed25519)
+		verifrt.Assert(err == nil, "ed25519 parameters")
+		priv, err := ed25519.NewPrivateKey(secretdata.NewBytesFromData(verifrt.Bytes("edseed", 32), insecuresecretdataaccess.Token{}), 0, *edp.(*ed25519.Parameters))
+		verifrt.Assert(err == nil && priv != nil, "ed25519.NewPrivateKey")
+		clPub, clIsPrivate = priv, true
+	}
 
 	pub, err := NewPublicKey(mlPub, clPub, id, params)
 	mlOK := mlVar == mldsa.VariantNoPrefix && ((row.inst == MLDSA65 && mlInst == mldsa.MLDSA65) || (row.inst == MLDSA87 && mlInst == mldsa.MLDSA87))
-	clOK := row2.alg == row.alg
-	verifrt.Assert((err == nil) == (mlOK && clOK), "NewPublicKey accepts iff the embedded ML-DSA key is an unprefixed key of the announced instance and the traditional key is of the announced algorithm")
+	clOK := row2.alg == row.alg && !clIsPrivate
+	verifrt.Assert((err == nil) == (mlOK && clOK), "NewPublicKey accepts iff the embedded ML-DSA key is an unprefixed key of the announced instance and the traditional key is a PUBLIC key of the announced algorithm")
 	if err != nil {
 		verifrt.Assert(pub == nil, "no key on error")
 		verifrt.Reach("refused")
